@@ -186,6 +186,19 @@ def r_cks_reader(model, rep, rule_id="R-CKS-DEFASSIGN", format_only=False):
     rep.ob(rule_id, "Checksums.deserialize:keyed-by-option", ok, site=cx.site(e.lineno),
            msg="" if ok else "every option of [checksums] must be stored under its own (fixed) path: %s" % T.show(key)[:120])
     v = T.unwrap(e.value)
+    if v[0] in ("phi", "ifexp"):
+        # a pair chosen as a whole (a helper returning (type, value) from several places): the pair of what each component can be
+        leaves = T.alts(v)
+        if leaves and all(a[0] in ("tuple", "list") and len(a[1]) == 2 for a in leaves):
+            comps = []
+            for i in (0, 1):
+                xs = []
+                for a in leaves:
+                    for y in T.alts(a[1][i]):
+                        if y not in xs:
+                            xs.append(y)
+                comps.append(xs[0] if len(xs) == 1 else ("phi", tuple(xs)))
+            v = ("tuple", tuple(comps))
     if not (v[0] in ("tuple", "list") and len(v[1]) == 2):
         rep.ob(rule_id, "Checksums.deserialize:pair", False, site=cx.site(e.lineno), msg="stored value is not a (type, value) pair")
         return
